@@ -649,8 +649,12 @@ impl FixtureDatabase {
                 continue;
             }
             if trimmed.starts_with('@') {
-                // Check for @pytest.fixture or @fixture (with optional parens/args)
-                if trimmed.contains("pytest.fixture") || trimmed.starts_with("@fixture") {
+                // Check for @pytest.fixture, @pytest_asyncio.fixture or @fixture (with optional
+                // parens/args) - the same spellings the AST-based recogniser accepts
+                if trimmed.contains("pytest.fixture")
+                    || trimmed.contains("pytest_asyncio.fixture")
+                    || trimmed.starts_with("@fixture")
+                {
                     return true;
                 }
                 // Another decorator — keep scanning upward
